@@ -46,7 +46,8 @@ def hidden_channels(b):
     ca = any(c['sa'] in ('foreign', 'own+f') for c in prog['calls']) or \
         (ts['args'][1] in ('hidden', 'both') and any('own' in c['sa'] for c in prog['calls']))
     ck = any(c['sk'] in ('foreign', 'own+f') for c in prog['calls']) or \
-        (ts['kwargs'][1] in ('hidden', 'both') and any('own' in c['sk'] for c in prog['calls']))
+        (ts['kwargs'][1] in ('hidden', 'both') and any('own' in c['sk'] for c in prog['calls'])) or \
+        any(c.get('inarg') == 'mutate' for c in prog['calls'])
     return ca, ck
 
 
@@ -54,12 +55,15 @@ def content_flows(b, calls=None):
     """Per star: caller-supplied content reaches a callee through a star-argument sigtools
     must treat as unknown (tainted but not replaced, or combined) in one of `calls`."""
     prog = b.prog
-    ts = progs.taint_state(prog)
-    out = {}
-    for key, mode in (('args', 'sa'), ('kwargs', 'sk')):
-        tainted, flow = ts[key]
-        out[key] = any(c[mode] in ('own+f', 'own+own') or (c[mode] == 'own' and tainted and flow in ('same', 'both'))
-                       for c in (prog['calls'] if calls is None else calls))
+    out = {'args': False, 'kwargs': False}
+    for j, c in enumerate(prog['calls']):
+        if calls is not None and not any(c is x for x in calls):
+            continue
+        ts = progs.taint_state(prog, j)
+        for key, mode in (('args', 'sa'), ('kwargs', 'sk')):
+            tainted, flow = ts[key]
+            if c[mode] in ('own+f', 'own+own') or (c[mode] == 'own' and tainted and flow in ('same', 'both')):
+                out[key] = True
     return out
 
 
@@ -75,6 +79,8 @@ def dead_call(b, c):
     """The written part of the call can never bind to its callee, whatever the star-arguments
     hold: every execution of that branch raises TypeError, so the function honours no call at
     all and the reported signature is not held to account there."""
+    if c.get('unres'):
+        return False
     view = universe.spec_view(b.leaves[c['to']])
     bd = cpbind.binder(view)
     extra = ([n for n in cpbind.kwpassable(view) if n not in c['names']] + ['q9']) if c['sk'] != 'none' else []
@@ -171,7 +177,7 @@ def check_prog(prog, stats, executed_cap=400):
         ts = progs.taint_state(prog)
         tainted = ts['args'][0] or ts['kwargs'][0]
         modes = sorted(set(c['sa'] for c in prog['calls']) | set(c['sk'] for c in prog['calls']))
-        special = tainted or route in progs.UNRESOLVABLE or any(m not in ('own', 'none') for m in modes)
+        special = tainted or route in progs.UNRESOLVABLE or any(m not in ('own', 'none') for m in modes) or any(c.get('unres') for c in prog['calls'])
         stats.cls('route/%s/%s' % (route, 'fallback' if fallback else 'discovered'))
         stats.cls('deco/%s/%s' % (deco, 'fallback' if fallback else 'discovered'))
         for c in prog['calls']:
@@ -281,7 +287,10 @@ def check_prog(prog, stats, executed_cap=400):
                                     reached += 1
                                 break
                             last = info
-                        if not ok and not exhausted:
+                        if not ok and (not exhausted or flows['args'] or flows['kwargs']):
+                            # caller content reaches the callee through a star the program taints or
+                            # combines: the run-time value is not the harness's to choose (own parameter
+                            # names cannot travel in **kwargs, ...); there only clause (B) is demanded
                             inconclusive += 1
                             continue
                         if not ok:
@@ -300,7 +309,7 @@ def check_prog(prog, stats, executed_cap=400):
                                            R, P, npos, list(K), sel, ', every hidden value tried (%d)' % tried if hidden else '', last, what, b.src))
                             return
         if inconclusive:
-            stats.cls('witness-search-budget-exhausted', inconclusive)
+            stats.cls('no-witness-inconclusive (budget exhausted or caller-content existential)', inconclusive)
         stats.extra['executions'] += executed
         stats.cls('discovered/%s' % ('reached-leaf' if reached else 'no-leaf-reached'))
         if reached or special:
